@@ -243,6 +243,8 @@ def run_case(case):
                 env.t[s["t"]].null_grad()
             elif k == "setitem":
                 env.t[s["t"]][py_index(s["index"])] = env.operand(s["value"])
+            elif k == "setshape":
+                env.t[s["t"]].shape = tuple(s["shape"])
             elif k == "aug":
                 x = env.t[s["t"]]
                 v = env.operand(s["value"])
